@@ -140,7 +140,7 @@ func genC11(t *rapid.T) C11Case {
 		"overflow", "overflow", "overflow",
 		"cut_read", "cut_read",
 		"read_error", "read_error", "read_error", "read_error",
-		"deadline",
+		"deadline", "deadline",
 		"close_conn", "close_conn",
 		"none", "none",
 		"listener",
@@ -153,7 +153,7 @@ func genC11(t *rapid.T) C11Case {
 	}
 	c := C11Case{Kind: "mux"}
 	if kind == "overflow" {
-		c.QLen = rapid.OneOf(rapid.IntRange(1, 8), rapid.IntRange(1, 64), rapid.SampledFrom([]int{1, 2, 256})).Draw(t, "qlen")
+		c.QLen = rapid.OneOf(rapid.IntRange(1, 8), rapid.IntRange(1, 64), rapid.SampledFrom([]int{1, 2, 255, 256, 257, 300, 1024})).Draw(t, "qlen")
 	} else {
 		c.QLen = genQLen(t)
 	}
